@@ -46,7 +46,9 @@ structure Settings (α : Type) where
   maxValue : α
   deriving Inhabited
 
-/-- `DefaultSolver<T>` (timers, print target and `linsolver` info omitted) -/
+/-- `DefaultSolver<T>` without `solution` (timers, print target and `linsolver` info omitted):
+everything `default_start()` and the loop of `solve()` read or write.  `solution` is only
+touched by `solution.post_process` after the loop and is kept next to it in `Solver`. -/
 structure SolverSt (α : Type) where
   data : ProblemData α
   variables : Vars α
@@ -61,6 +63,10 @@ structure SolverSt (α : Type) where
   infoMu : α
   infoSigma : α
   infoStepLength : α
+
+/-- `DefaultSolver<T>` -/
+structure Solver (α : Type) where
+  st : SolverSt α
   solution : Unscale.Solution α
 
 /-- what the observer hook records in one pass of the loop -/
@@ -100,23 +106,35 @@ def residNew (n m : Nat) : Resid α :=
     rx_inf := Array.replicate n 0, rz_inf := Array.replicate m 0,
     dot_qx := 0, dot_bz := 0, dot_sz := 0, dot_xPx := 0, Px := Array.replicate n 0 }
 
-/-- `DefaultSolver::new(P, q, A, b, cones, settings)`; `perm` is the AMD ordering of the
-assembled KKT matrix. -/
-def SolverSt.new (P : Csc α) (q : Array α) (A : Csc α) (b : Array α) (cones : List (ConeT α))
-    (st : Settings α) (perm : Array Nat) : MErr (SolverSt α) := do
-  Loop.checkDimensions P.m P.n q.size A.m A.n b.size (cones.map ConeT.nvars)
-  let solution := Unscale.Solution.new A.n A.m
+/-- the internal problem data of `DefaultSolver::new`: `DefaultProblemData::new` (collapse,
+presolve, cap) followed by `equilibrate` on the cones of the internal problem -/
+def internalData (P : Csc α) (q : Array α) (A : Csc α) (b : Array α) (cones : List (ConeT α))
+    (st : Settings α) : MErr (ProblemData α) := do
   let data ← ProblemData.new P q A b cones st.presolveEnable false st.infbound
   let K ← makeCones data.cones
   if numelAll K != data.m then throw (.panic "assert_eq!(cones.numel, data.m)")
-  let variables := varsNew data.n data.m
-  let residuals := residNew data.n data.m
-  let data ← Equil.equilibrate data data.cones st.equil
+  Equil.equilibrate data data.cones st.equil
+
+/-- everything of `DefaultSolver::new` except `solution` -/
+def SolverSt.new (P : Csc α) (q : Array α) (A : Csc α) (b : Array α) (cones : List (ConeT α))
+    (st : Settings α) (perm : Array Nat) : MErr (SolverSt α) := do
+  let data ← internalData P q A b cones st
+  let K ← makeCones data.cones
   let kktsystem ← KktSys.new data K st.lin perm
-  pure { data, variables, residuals, kktsystem, cones := K,
+  pure { data, variables := varsNew data.n data.m, residuals := residNew data.n data.m,
+         kktsystem, cones := K,
          stepLhs := varsNew data.n data.m, stepRhs := varsNew data.n data.m,
          prevVars := varsNew data.n data.m, info := infoNew,
-         infoMu := 0, infoSigma := 0, infoStepLength := 0, solution }
+         infoMu := 0, infoSigma := 0, infoStepLength := 0 }
+
+/-- `DefaultSolver::new(P, q, A, b, cones, settings)`; `perm` is the AMD ordering of the
+assembled KKT matrix.  (`_check_dimensions`, `DefaultSolution::new(A.n, A.m)`, data,
+cones, variables, residuals, equilibration, KKT system, work variables.) -/
+def Solver.new (P : Csc α) (q : Array α) (A : Csc α) (b : Array α) (cones : List (ConeT α))
+    (st : Settings α) (perm : Array Nat) : MErr (Solver α) := do
+  Loop.checkDimensions P.m P.n q.size A.m A.n b.size (cones.map ConeT.nvars)
+  let S ← SolverSt.new P q A b cones st perm
+  pure { st := S, solution := Unscale.Solution.new A.n A.m }
 
 /-- `default_start()` on the symmetric path (the results of the two KKT calls are not
 checked by the Rust code either) -/
@@ -141,122 +159,155 @@ structure LoopSt (α : Type) where
   /-- passes so far, oldest first -/
   traj : List (PassRec α)
 
-/-- one pass of `loop { … }`: `(true, _)` = fell through to the next pass, `(false, _)` = `break` -/
-def pass (st : Settings α) (L : LoopSt α) : MErr (Bool × LoopSt α) := do
-  let S := L.S
+/-- the numerics at the top of a pass: `residuals.update`, `calc_mu`, `info.save_scalars`
+(`iterations`), `info.update` → `(residuals, μ, info)` -/
+def topNumerics (S : SolverSt α) (iter : Nat) : MErr (Resid α × α × InfoS α) := do
   let data := S.data
-  -- residuals.update, calc_mu, save_scalars, info.update
   let residuals ← Residuals.update S.residuals S.variables
     { P := data.P, q := data.q, A := data.A, b := data.b }
   let mu := Residuals.calcMu residuals S.variables (degreeAll S.cones)
-  let info0 := { S.info with iterations := L.iter }
   let eq := equilView data.equilibration
   let normq ← Info.getNormq data.normq data.q eq.dinv eq.c
   let normb ← Info.getNormb data.normb data.b eq.einv
-  let info1 ← Info.update info0 eq normq normb S.variables residuals
-  -- check_termination (time_limit = ∞)
-  let (info2, isdone) := Info.checkTermination info1 residuals.dot_bz residuals.dot_qx st.info L.iter false
-  let rec0 : PassRec α :=
-    { vars := S.variables, mu, sigma := L.sigma, stepLength := L.alpha, info := info1,
-      dotBz := residuals.dot_bz, dotQx := residuals.dot_qx, isdone, status := info2.status }
-  let S := { S with residuals, info := info2, infoMu := mu, infoSigma := L.sigma,
-                    infoStepLength := L.alpha }
-  let L := { L with S, mu }
-  if isdone then
-    -- strategy_checkpoint_insufficient_progress (all cones symmetric: NoUpdate or Fail)
-    if info2.status != .insufficientProgress then
-      pure (false, { L with traj := L.traj ++ [rec0] })
-    else
-      let variables ← varsCopyFrom S.variables S.prevVars
-      let S := { S with info := Info.resetToPrev info2, variables }
-      pure (false, { L with S, traj := L.traj ++ [rec0] })
-  else
-  -- scale_cones / strategy_checkpoint_is_scaling_success
-  let (scaleOk, cones) ← (scaleCones S.variables S.cones : MErr (Bool × List (ConeSt α)))
-  let S := { S with cones }
-  let rec1 := { rec0 with scalingSuccess := some scaleOk }
-  if !scaleOk then
-    let S := { S with info := { S.info with status := .numericalError } }
-    pure (false, { L with S, traj := L.traj ++ [rec1] })
-  else
-  let iter := L.iter + 1
-  -- kktsystem.update, affine rhs, affine solve
+  let info1 ← Info.update { S.info with iterations := iter } eq normq normb S.variables residuals
+  pure (residuals, mu, info1)
+
+/-- what the KKT stage of a pass produces -/
+structure KktOut (α : Type) where
+  S : SolverSt α
+  /-- `is_kkt_solve_success` after the combined solve (or the failed update / affine solve) -/
+  ok : Bool
+  /-- `(α_aff, σ)` when the affine step succeeded -/
+  aff : Option (α × α)
+
+/-- the numerics between `iter += 1` and `strategy_checkpoint_numerical_error`:
+`kktsystem.update`, `affine_step_rhs`, the affine solve and — only on its success — the
+affine step length, `σ`, the Mehrotra factor `m`, `combined_step_rhs`, the combined solve -/
+def kktNumerics (st : Settings α) (S : SolverSt α) (cones : List (ConeSt α)) (mu : α) (iter : Nat) :
+    MErr (KktOut α) := do
+  let data := S.data
   let (updOk, kktsystem) ← S.kktsystem.update data cones st.lin
-  let stepRhs ← affineStepRhs S.stepRhs residuals S.variables cones
+  let stepRhs ← affineStepRhs S.stepRhs S.residuals S.variables cones
   let (affOk, stepLhs, kktsystem) ←
     if updOk then kktsystem.solve S.stepLhs stepRhs data S.variables cones .affine st.lin
     else pure (false, S.stepLhs, kktsystem)
   let S := { S with kktsystem, stepRhs, stepLhs }
-  -- combined step only on affine step success
-  let (ok, S, sigma, rec2) ← (do
-    if affOk then
-      let aAff ← calcStepLength S.variables S.stepLhs cones st.maxValue st.maxStepFraction .affine
-      let sigma := Step.centeringParameter aAff
-      let m := Step.mehrotraM iter aAff
-      let (stepRhs, stepLhs) ← combinedStepRhs S.stepRhs residuals S.variables cones S.stepLhs sigma mu m
-      let (combOk, stepLhs, kktsystem) ←
-        S.kktsystem.solve stepLhs stepRhs data S.variables cones .combined st.lin
-      pure (combOk, { S with kktsystem, stepRhs, stepLhs }, sigma,
-            { rec1 with alphaAff := some aAff, sigmaNew := some sigma })
-    else pure (false, S, L.sigma, rec1) : MErr (Bool × SolverSt α × α × PassRec α))
-  let rec3 := { rec2 with kktSuccess := some ok }
-  -- strategy_checkpoint_numerical_error
-  if !ok then
-    let S := { S with info := { S.info with status := .numericalError } }
-    pure (false, { L with S, iter, sigma, alpha := 0, traj := L.traj ++ [rec3] })
+  if affOk then
+    let aAff ← calcStepLength S.variables S.stepLhs cones st.maxValue st.maxStepFraction .affine
+    let sigma := Step.centeringParameter aAff
+    let m := Step.mehrotraM iter aAff
+    let (stepRhs, stepLhs) ← combinedStepRhs S.stepRhs S.residuals S.variables cones S.stepLhs sigma mu m
+    let (combOk, stepLhs, kktsystem) ←
+      S.kktsystem.solve stepLhs stepRhs data S.variables cones .combined st.lin
+    pure { S := { S with kktsystem, stepRhs, stepLhs }, ok := combOk, aff := some (aAff, sigma) }
+  else pure { S, ok := false, aff := none }
+
+/-- `save_prev_iterate` (variables half) and `add_step` -/
+def stepVars (S : SolverSt α) (a : α) : MErr (Vars α × Vars α) := do
+  let prevVars ← varsCopyFrom S.prevVars S.variables
+  let variables ← addStep S.variables S.stepLhs a
+  pure (prevVars, variables)
+
+/-- one pass of `loop { … }`: `(true, _)` = fell through to the next pass, `(false, _)` = `break` -/
+def pass (st : Settings α) (L : LoopSt α) : MErr (Bool × LoopSt α) := do
+  -- residuals.update, calc_mu, save_scalars, info.update
+  let (residuals, mu, info1) ← topNumerics L.S L.iter
+  -- check_termination (time_limit = ∞)
+  let ct := Info.checkTermination info1 residuals.dot_bz residuals.dot_qx st.info L.iter false
+  let rec0 : PassRec α :=
+    { vars := L.S.variables, mu, sigma := L.sigma, stepLength := L.alpha, info := info1,
+      dotBz := residuals.dot_bz, dotQx := residuals.dot_qx, isdone := ct.2, status := ct.1.status }
+  let S : SolverSt α := { L.S with residuals, info := ct.1, infoMu := mu, infoSigma := L.sigma,
+                                   infoStepLength := L.alpha }
+  if ct.2 then
+    -- strategy_checkpoint_insufficient_progress (all cones symmetric: NoUpdate or Fail)
+    if ct.1.status != .insufficientProgress then
+      pure (false, { L with S, mu, traj := L.traj ++ [rec0] })
+    else
+      let variables ← varsCopyFrom S.variables S.prevVars
+      pure (false, { L with S := { S with info := Info.resetToPrev ct.1, variables }, mu,
+                            traj := L.traj ++ [rec0] })
   else
-  let a ← calcStepLength S.variables S.stepLhs cones st.maxValue st.maxStepFraction .combined
+  -- scale_cones / strategy_checkpoint_is_scaling_success
+  let sc ← scaleCones S.variables S.cones
+  let S := { S with cones := sc.2 }
+  if !sc.1 then
+    pure (false, { L with S := { S with info := { S.info with status := .numericalError } }, mu,
+                          traj := L.traj ++ [{ rec0 with scalingSuccess := some false }] })
+  else
+  -- iter += 1; kktsystem.update, affine and combined solves
+  let k ← kktNumerics st S sc.2 mu (L.iter + 1)
+  let sigma := match k.aff with
+    | some p => p.2
+    | none => L.sigma
+  let rec3 : PassRec α :=
+    { rec0 with scalingSuccess := some true, kktSuccess := some k.ok,
+                alphaAff := k.aff.map (·.1), sigmaNew := k.aff.map (·.2) }
+  -- strategy_checkpoint_numerical_error
+  if !k.ok then
+    pure (false, { S := { k.S with info := { k.S.info with status := .numericalError } },
+                   iter := L.iter + 1, sigma, alpha := 0, mu, traj := L.traj ++ [rec3] })
+  else
+  let a ← calcStepLength k.S.variables k.S.stepLhs sc.2 st.maxValue st.maxStepFraction .combined
   let rec4 := { rec3 with alpha := some a }
   -- strategy_checkpoint_small_step
   if a ≤ fmax 0 st.minTerminateStepLength then
-    let S := { S with info := { S.info with status := .insufficientProgress } }
-    pure (false, { L with S, iter, sigma, alpha := 0, traj := L.traj ++ [rec4] })
+    pure (false, { S := { k.S with info := { k.S.info with status := .insufficientProgress } },
+                   iter := L.iter + 1, sigma, alpha := 0, mu, traj := L.traj ++ [rec4] })
   else
   -- save_prev_iterate, add_step
-  let prevVars ← varsCopyFrom S.prevVars S.variables
-  let variables ← addStep S.variables S.stepLhs a
-  let S := { S with info := Info.savePrev S.info, prevVars, variables }
-  pure (true, { L with S, iter, sigma, alpha := a, traj := L.traj ++ [rec4] })
+  let pv ← stepVars k.S a
+  pure (true, { S := { k.S with info := Info.savePrev k.S.info, prevVars := pv.1, variables := pv.2 },
+                iter := L.iter + 1, sigma, alpha := a, mu, traj := L.traj ++ [rec4] })
 
 /-- the `loop { … }` with a pass budget (`max_iter + 2` is never exhausted, C04) -/
 def runLoop (st : Settings α) : Nat → LoopSt α → MErr (LoopSt α)
   | 0, _ => throw (.panic "model: pass budget exhausted")
   | fuel + 1, L => do
-    let (cont, L') ← pass st L
-    if cont then runLoop st fuel L' else pure L'
+    let r ← pass st L
+    if r.1 then runLoop st fuel r.2 else pure r.2
 
-/-- everything after the loop -/
-def finish (st : Settings α) (L : LoopSt α) : MErr (SolverSt α) := do
+/-- `info.reset`, `default_start()` and the loop -/
+def SolverSt.runSolve (S : SolverSt α) (st : Settings α) : MErr (LoopSt α) := do
+  -- info.reset
+  let S := { S with info := { S.info with status := .unsolved, iterations := 0 } }
+  let S ← S.defaultStart st
+  runLoop st (st.info.max_iter + 2) { S, iter := 0, sigma := 1, alpha := 0, mu := 0, traj := [] }
+
+/-- the final `save_scalars` (`if α == 0`) and `info.post_process` -/
+def finishInfo (st : Settings α) (L : LoopSt α) : SolverSt α :=
   let S := L.S
-  -- `if α == 0 { save_scalars(μ, α, σ, iter) }`
   let S := if L.alpha == 0 then
       { S with info := { S.info with iterations := L.iter }, infoMu := L.mu, infoSigma := L.sigma,
                infoStepLength := L.alpha }
     else S
-  let info := Info.postProcess S.info S.residuals.dot_bz S.residuals.dot_qx st.info
-  let presolver : Option (Unscale.PresolveMap α) :=
-    match S.data.presolver with
-    | some p => p.keep.map (fun keep => { keep, infbound := p.infbound })
-    | none => none
-  let (solution, variables) ← Unscale.postProcess S.solution (equilView S.data.equilibration)
-    presolver S.variables info
-  pure { S with info, solution, variables }
+  { S with info := Info.postProcess S.info S.residuals.dot_bz S.residuals.dot_qx st.info }
+
+/-- the presolver row map as `solution.post_process` uses it -/
+def presolveMap (d : ProblemData α) : Option (Unscale.PresolveMap α) :=
+  match d.presolver with
+  | some p => p.keep.map (fun keep => { keep, infbound := p.infbound })
+  | none => none
+
+/-- everything after the loop: `(solver state, solution)` -/
+def finish (st : Settings α) (L : LoopSt α) (sol : Unscale.Solution α) :
+    MErr (SolverSt α × Unscale.Solution α) := do
+  let S := finishInfo st L
+  let r ← Unscale.postProcess sol (equilView S.data.equilibration) (presolveMap S.data) S.variables S.info
+  pure ({ S with variables := r.2 }, r.1)
 
 /-- result of a whole `solve()` -/
 structure SolveResult (α : Type) where
-  S : SolverSt α
+  S : Solver α
   traj : List (PassRec α)
-  passes : Nat
+
+def SolveResult.passes (r : SolveResult α) : Nat := r.traj.length
 
 /-- `solve()` -/
-def SolverSt.solve (S : SolverSt α) (st : Settings α) : MErr (SolveResult α) := do
-  -- info.reset
-  let S := { S with info := { S.info with status := .unsolved, iterations := 0 } }
-  let S ← S.defaultStart st
-  let L ← runLoop st (st.info.max_iter + 2)
-    { S, iter := 0, sigma := 1, alpha := 0, mu := 0, traj := [] }
-  let S ← finish st L
-  pure { S, traj := L.traj, passes := L.traj.length }
+def Solver.solve (S : Solver α) (st : Settings α) : MErr (SolveResult α) := do
+  let L ← S.st.runSolve st
+  let r ← finish st L S.solution
+  pure { S := { st := r.1, solution := r.2 }, traj := L.traj }
 
 end
 
